@@ -18,7 +18,7 @@ func init() {
 		Rule: "documents = ce.MarshalTo{CBE,CTE}Document of generated container values (slices, maps, structs of supported kinds, depth<=3) that unmarshal completely without error; " +
 			"for each document EVERY cut k in [1, len-1] is enumerated and doc[:k] is unmarshaled with a nil template and with the value's own type as template. Oracle: err != nil at every cut; " +
 			"the returned partial value is a prefix of the full result (list: no longer than full, all but the last element equal, last element recursively a prefix; map/struct: every key present exists in full " +
-			"with a prefix value; scalar: equal or zero; string/array: equal, empty or a byte prefix); for top-level lists the number of elements lying wholly before the cut is a lower bound on the partial list's length. " +
+			"with a prefix value; scalar: equal or zero; string/array: equal, empty or a byte prefix); for top-level lists the number of elements lying wholly before the cut is a lower bound on the partial list's length; for top-level structs (typed template) a field that was delivered equal to its full value at one cut must be delivered unchanged at every later cut. " +
 			"Non-trivial = cut lies after the first element started (partial value non-empty); distinct = distinct (document, cut, template).",
 		Assumptions: []string{"CBE element encodings are context free, so the end offset of list element i is len(Marshal(list[:i+1]))-1", "values avoid the known-finding regions of C04 (types.Edge, nil containers outside struct fields)"},
 		Cases:       func(tier string) int { return tierN(tier, 160, 3000) },
@@ -277,6 +277,9 @@ func runC09(c *fw.Ctx, idx int) {
 			n--
 		}
 	}
+	// fields of a top-level struct (typed template) that have already been seen equal to their full value at an earlier cut:
+	// such a field was completely decoded then, so every longer prefix of the document must still deliver it unchanged
+	seenWhole := map[int]int{}
 	for k := 1; k < n; k++ {
 		for ti, tmpl := range templates {
 			c.Region(fmt.Sprintf("cut-%s-template%d", codec, ti))
@@ -309,6 +312,34 @@ func runC09(c *fw.Ctx, idx int) {
 			if r := c09Prefix(reflect.ValueOf(out), reflect.ValueOf(fulls[ti]), true, ""); r != "" {
 				c.Fail("partial-not-a-prefix:"+codec, detail(map[string]interface{}{"why": r, "err": err.Error()}))
 				continue
+			}
+			if ti == 1 && v.Kind() == reflect.Struct {
+				pv := c09Unwrap(reflect.ValueOf(out))
+				fv := c09Unwrap(reflect.ValueOf(fulls[ti]))
+				if fv.IsValid() && fv.Kind() == reflect.Struct {
+					for fi := 0; fi < fv.NumField(); fi++ {
+						if fv.Type().Field(fi).PkgPath != "" || c09IsZero(fv.Field(fi)) {
+							continue
+						}
+						eq := pv.IsValid() && pv.Kind() == reflect.Struct
+						if eq {
+							path, _ := gen.ValueEq(pv.Field(fi).Interface(), fv.Field(fi).Interface())
+							eq = path == ""
+						}
+						if first, ok := seenWhole[fi]; ok && !eq {
+							c.Inc("lower_bound_comparisons")
+							c.Fail("completely-decoded-field-lost:"+codec, detail(map[string]interface{}{"field": fv.Type().Field(fi).Name, "was_complete_at_cut": first, "err": err.Error()}))
+							break
+						} else if ok {
+							c.Inc("lower_bound_comparisons")
+						}
+						if eq {
+							if _, ok := seenWhole[fi]; !ok {
+								seenWhole[fi] = k
+							}
+						}
+					}
+				}
 			}
 			if elemEnd != nil {
 				whole := 0
